@@ -168,6 +168,88 @@ Example C12_fan_nonvacuous :
      [("keygen-17", 0, "b", 1); ("keygen-17", 0, "b", 1)]] = false.
 Proof. vm_compute. repeat split. Qed.
 
+(* ---- the table changes BETWEEN the messages of a stream.  An interleaved script (any list of table
+   operations and messages, in the order in which they happened: a message stands for the moment
+   its fan-out starts, an operation is issued strictly between two messages); [recvi_c c_init evs c]
+   = what the model of the code hands to channel c over the whole script (GetSubscribers is
+   consulted anew for every message), [recvi_a a_init evs c] = what the specification's live
+   subscriptions entitle it to.  For every script and channel they coincide ... *)
+Theorem C12_fani_refinement : forall evs c,
+  wf_ops (fops evs) = true -> recvi_c c_init evs c = recvi_a a_init evs c.
+Proof. exact fani_refinement. Qed.
+Print Assumptions C12_fani_refinement.
+
+(* ... the judge used on the per-channel receipts of the implementation accepts the model ... *)
+Theorem C12_fani_judge_model : forall evs chans,
+  wf_ops (fops evs) = true ->
+  judge_fani evs chans (map (recvi_c c_init evs) chans) = true.
+Proof. exact fani_judge_model. Qed.
+Print Assumptions C12_fani_judge_model.
+
+(* ... and accepts receipts iff every channel received every message exactly as often as the
+   specification says (order of receipt unconstrained) ... *)
+Theorem C12_fani_judge_sound : forall evs chans impl,
+  judge_fani evs chans impl = true <->
+  Forall2 (fun c got => forall x, count_m x got = count_m x (recvi_a a_init evs c)) chans impl.
+Proof. exact fani_judge_sound. Qed.
+Print Assumptions C12_fani_judge_sound.
+
+(* ... where the specification's receipts are fixed message by message: a script without messages
+   hands out nothing, and every single message contributes - whatever comes before or after it in
+   the script - one copy per subscription the channel holds on the message's (session, type) AT THE
+   MOMENT OF THAT MESSAGE: subscriptions made later get nothing of it, subscriptions cancelled
+   earlier neither, and the previous messages of the stream play no role. *)
+Theorem C12_fani_no_messages : forall evs st c,
+  (forall m, ~ In (FMsg m) evs) -> recvi_a st evs c = [].
+Proof. exact fani_no_messages. Qed.
+Print Assumptions C12_fani_no_messages.
+
+Theorem C12_fani_each_message : forall pre m post c x,
+  count_m x (recvi_a a_init (pre ++ FMsg m :: post) c) =
+  (count_m x (recvi_a a_init (pre ++ post) c) +
+   (if msg_eqb x m
+    then copies c (spec_subscribers (m_sess m) (m_type m) (fst (run_a a_init (fops pre))))
+    else O))%nat.
+Proof. exact fani_each_message. Qed.
+Print Assumptions C12_fani_each_message.
+
+(* The burst on a fixed table (above) is the special case "all table operations first". *)
+Theorem C12_fani_fixed_table : forall ops msgs c,
+  recvi_a a_init (map FOp ops ++ map FMsg msgs) c = recv_a (fst (run_a a_init ops)) msgs c.
+Proof. exact fani_fixed_table. Qed.
+Print Assumptions C12_fani_fixed_table.
+
+(* Once cancelled, nothing further - in the model of the code, for every script: a channel
+   subscribed by one subscription only has, at the end of the script, received exactly what it had
+   received when that subscription was cancelled, whatever is sent or subscribed afterwards. *)
+Theorem C12_fani_cancelled_nothing : forall pre k post c,
+  wf_ops (fops (pre ++ FOp (Unsub k) :: post)) = true -> (k < nsubs (fops pre))%nat ->
+  (forall j s' t', nth_sub (fops (pre ++ FOp (Unsub k) :: post)) j = Some (s', t', c) -> j = k) ->
+  recvi_c c_init (pre ++ FOp (Unsub k) :: post) c = recvi_c c_init pre c.
+Proof. exact fani_cancelled_nothing. Qed.
+Print Assumptions C12_fani_cancelled_nothing.
+
+(* Non-vacuity: one stream carrying the same (session, type) four times while the table changes:
+   channel 7 is cancelled after the first message, channel 8 subscribes after the second, a
+   subscription of another pair in between.  The model hands out per message what is live then;
+   receipts as a list kept from the first message (7 keeps receiving, 8 gets nothing) are
+   rejected. *)
+Example C12_fani_nonvacuous :
+  let m := fun p => FMsg ("keygen-17", 0, p, 1) in
+  let evs := [FOp (Sub "keygen-17" 0 5 7); m "a"; FOp (Unsub 0); m "b"; FOp (Sub "keygen-17" 0 6 8);
+              FOp (Sub "keygen-1" 0 7 9); m "c"; m "d"] in
+  wf_ops (fops evs) = true /\
+  map (recvi_c c_init evs) [7; 8; 9] =
+    [[("keygen-17", 0, "a", 1)]; [("keygen-17", 0, "c", 1); ("keygen-17", 0, "d", 1)]; []] /\
+  judge_fani evs [7; 8; 9]
+    [[("keygen-17", 0, "a", 1)]; [("keygen-17", 0, "d", 1); ("keygen-17", 0, "c", 1)]; []] = true /\
+  judge_fani evs [7; 8; 9]
+    [[("keygen-17", 0, "a", 1); ("keygen-17", 0, "b", 1); ("keygen-17", 0, "c", 1); ("keygen-17", 0, "d", 1)];
+     []; []] = false /\
+  judge_fani evs [7; 8; 9]
+    [[("keygen-17", 0, "a", 1)]; [("keygen-17", 0, "c", 1)]; []] = false.
+Proof. vm_compute. repeat split. Qed.
+
 (* ---- concurrent use.  Several threads, each running its own sequential program on the ONE shared
    table; every SubscribeTo / UnSubscribeFrom / GetSubscribers is one atomic step (the mutex), a
    thread cancels only its own subscriptions (Unsub k = its k-th Sub).  [sched sigma ths] is the
